@@ -10,14 +10,8 @@ impl IndexBuilder for MysqlQueryBuilder {
         write!(sql, "KEY ").unwrap();
 
         if let Some(name) = &create.index.name {
-            write!(
-                sql,
-                "{}{}{} ",
-                self.quote().left(),
-                name,
-                self.quote().right()
-            )
-            .unwrap();
+            Alias::new(name).prepare(sql.as_writer(), self.quote());
+            write!(sql, " ").unwrap();
         }
 
         self.prepare_index_type(&create.index_type, sql);
@@ -38,14 +32,7 @@ impl IndexBuilder for MysqlQueryBuilder {
         write!(sql, "INDEX ").unwrap();
 
         if let Some(name) = &create.index.name {
-            write!(
-                sql,
-                "{}{}{}",
-                self.quote().left(),
-                name,
-                self.quote().right()
-            )
-            .unwrap();
+            Alias::new(name).prepare(sql.as_writer(), self.quote());
         }
 
         write!(sql, " ON ").unwrap();
@@ -72,14 +59,7 @@ impl IndexBuilder for MysqlQueryBuilder {
         }
 
         if let Some(name) = &drop.index.name {
-            write!(
-                sql,
-                "{}{}{}",
-                self.quote().left(),
-                name,
-                self.quote().right()
-            )
-            .unwrap();
+            Alias::new(name).prepare(sql.as_writer(), self.quote());
         }
 
         write!(sql, " ON ").unwrap();
